@@ -22,7 +22,7 @@ class CmpError(Exception):
     pass
 
 
-CTL = {'n': 0, 'fail': -1, 'hook': None, 'serial': 0}
+CTL = {'n': 0, 'fail': -1, 'hook': None, 'serial': 0, 'live': False, 'failsym': None, 'failed_at': 0}
 
 
 def reset(fail=-1, hook=None):
@@ -31,13 +31,49 @@ def reset(fail=-1, hook=None):
     CTL['n'] = 0
     CTL['fail'] = fail
     CTL['hook'] = hook
+    CTL['failsym'] = None
+    CTL['failed_at'] = 0
+    CTL['live'] = False
+
+
+def reset_counter(fail=-1, hook=None):
+    """restart comparison counting without forgetting decisions already taken on this path"""
+    CTL['n'] = 0
+    CTL['fail'] = fail
+    CTL['hook'] = hook
+    CTL['failsym'] = None
+    CTL['failed_at'] = 0
+
+
+class live:
+    """comparisons are counted (and faults / hooks fire) only while the code
+    under test runs, never inside the reference model or the oracle"""
+    def __enter__(self):
+        self.prev = CTL['live']
+        CTL['live'] = True
+
+    def __exit__(self, *a):
+        CTL['live'] = self.prev
+        return False
 
 
 def _tick():
+    if not CTL['live']:
+        return
     CTL['n'] += 1
     n = CTL['n']
     if n == CTL['fail']:
         raise CmpError(n)
+    fs = CTL['failsym']
+    if fs is not None:
+        # symbolic fault index: "does the fault strike at THIS comparison?" is a
+        # solver decision, so only indices the operation really reaches fork
+        with _common.traced():
+            hit = True if fs == n else False
+        if hit:
+            CTL['failsym'] = None
+            CTL['failed_at'] = n
+            raise CmpError(n)
     h = CTL['hook']
     if h is not None and n == h[0]:
         CTL['hook'] = None
